@@ -59,6 +59,12 @@ func (e *Engine) strIntrinsic(fn *ssa.Function, full string, args []Value) (Valu
 			return StrVal{bytes: s.bytes[len(p.bytes):]}, true
 		}
 		return s, true
+	case "strings.CutPrefix", "internal/stringslite.CutPrefix":
+		s, p := args[0].(StrVal), args[1].(StrVal)
+		if e.decide(hasPrefixTerm(s, p)) {
+			return TupleVal{StrVal{bytes: s.bytes[len(p.bytes):]}, tTrue}, true
+		}
+		return TupleVal{s, tFalse}, true
 	case "strings.TrimSuffix":
 		s, p := args[0].(StrVal), args[1].(StrVal)
 		noAtom(s, p)
